@@ -355,15 +355,20 @@ class Sim:
         key = trace.digest((R, S))
         self.cover['tab1' if n == 1 else ('tab2' if n == 2 else 'tab3p')].add(f'{n}:{key}' if n > 2 else key)
 
+    def valid_tableau(self, val):
+        if not (isinstance(val, tuple) and len(val) == 2):
+            raise Violation('conjugation', 'to_symplectic_form', f'expected a pair (r, S), got {type(val).__name__}')
+        R, S = val
+        if not (isinstance(R, np.ndarray) and isinstance(S, np.ndarray) and R.dtype == np.uint8 and S.dtype == np.uint8):
+            raise Violation('conjugation', 'to_symplectic_form', f'tableau is not a pair of uint8 arrays: ({type(R).__name__}, {type(S).__name__})')
+        return R.copy(), S.copy()
+
     # ---- ops ----
     def do_form(self, world, op, c, circ):
         st, val = self.call(world, op, lambda x: x.to_symplectic_form(), circ, 'to_symplectic_form')
         if st != 'ok':
             return False
-        R, S = val
-        if not (isinstance(R, np.ndarray) and isinstance(S, np.ndarray) and R.dtype == np.uint8 and S.dtype == np.uint8):
-            raise Violation('conjugation', 'to_symplectic_form', 'tableau is not a pair of uint8 arrays')
-        R, S = R.copy(), S.copy()
+        R, S = self.valid_tableau(val)
         self.log.add('form', c, R, S)
         if R.max(initial=0) > 1 or S.max(initial=0) > 1 or not dp.is_symplectic(S):
             raise Violation('conjugation', 'to_symplectic_form', f'S is not a binary symplectic matrix: {S.tolist()}')
@@ -477,7 +482,7 @@ class Sim:
         st, val = self.call(world, op, lambda x: x.to_symplectic_form(), circ, 'to_symplectic_form')
         if st != 'ok':
             return False
-        R, S = val[0].copy(), val[1].copy()
+        R, S = self.valid_tableau(val)
         self.observe(c, 'conjugation', 'to_symplectic_form', lambda cand: self.tableau_ok(cand, R, S, []))
 
         def emb(hs):
